@@ -29,7 +29,16 @@ pub const CLAIMED: [&str; 8] = ["C02", "C03", "C08", "C09", "C11", "C12", "C13",
 /// Number of runs of a batch (fixed counts, never "run for N seconds").
 pub fn plan_runs(prop: &str, tier: Tier) -> u64 {
     let (main, exhaustive, deep) = plan_parts(prop, tier);
-    main + exhaustive + deep + plan_big(prop, tier)
+    main + exhaustive + deep + plan_big(prop, tier) + plan_huge(prop, tier)
+}
+
+/// Runs on inputs of 2^20 symbols and more, placed first.
+pub fn plan_huge(prop: &str, tier: Tier) -> u64 {
+    match (prop, tier) {
+        ("C02" | "C03", Tier::Quick) => 12,
+        ("C02" | "C03", Tier::Thorough) => 240,
+        _ => 0,
+    }
 }
 
 /// Runs on large inputs (more than 65 536 elements), appended after the other parts.
@@ -66,7 +75,12 @@ pub fn gen(prop: &str, seed: u64, tier: Tier, r: u64) -> Case {
         "C02" | "C03" => {
             let (main, exhaustive, _deep) = plan_parts(prop, tier);
             let big = plan_big(prop, tier);
+            let huge = plan_huge(prop, tier);
             // large inputs come first so that the chk profile (a prefix of the run indices) sees them too
+            if r < huge {
+                return Case::Tree(trees::gen_huge_case(prop, rs, tier));
+            }
+            let r = r - huge;
             if r < big {
                 return Case::Tree(trees::gen_big_case(prop, rs, tier));
             }
